@@ -96,8 +96,14 @@ func freshFunctions(ref symTable, cfg string, pkgs map[string]*packages.Package)
 	rehomed := map[string]bool{} // pkg|shortname
 	for k, e := range ref {
 		if (e.Kind == "func" || e.Kind == "method") && hasCfg(e, cfg) && !curKeys[k] {
-			pkgPath, _, name := splitKey(k)
+			pkgPath, owner, name := splitKey(k)
+			if oe := ref[pkgPath+"|"+owner]; owner != "" && oe != nil && oe.Sig == "interface" {
+				continue // a method of an interface has no declaration to lose
+			}
 			rehomed[pkgPath+"|"+name] = true
+			if os.Getenv("VERIF_DEBUG_NORMALIZE") != "" {
+				fmt.Fprintln(os.Stderr, "re-homed candidate:", k)
+			}
 		}
 	}
 	for path, pk := range pkgs {
@@ -245,7 +251,7 @@ func deextract(repo string, cfg BuildConfig, ref symTable, overlay map[string][]
 		progress := false
 		touched := map[string]bool{}
 		// literals the inliner had to leave are flattened first
-		if changedAny {
+		{
 			// several statements of one file are rewritten in one round when their source ranges do not overlap
 			type span struct {
 				s, e int
@@ -261,6 +267,9 @@ func deextract(repo string, cfg BuildConfig, ref symTable, overlay map[string][]
 				return false
 			}
 			for _, site := range findClosureVars(pkgs) {
+				if !changedAny {
+					break
+				}
 				fname, content, err := fileContent(site.pkg.Fset, site.file, prev)
 				if err != nil {
 					continue
@@ -278,6 +287,9 @@ func deextract(repo string, cfg BuildConfig, ref symTable, overlay map[string][]
 				perFile[fname] = append(perFile[fname], span{ds, de, nil}, span{us, ue, lit}, span{de, us, append([]byte{}, content[de:us]...)})
 			}
 			for _, site := range findIIFEs(pkgs) {
+				if !changedAny {
+					break
+				}
 				fname, content, err := fileContent(site.pkg.Fset, site.file, prev)
 				if err != nil {
 					continue
@@ -295,6 +307,26 @@ func deextract(repo string, cfg BuildConfig, ref symTable, overlay map[string][]
 				}
 				perFile[fname] = append(perFile[fname], span{so, eo, []byte(text)})
 			}
+			for _, ed := range findSmallRewrites(pkgs, fresh) {
+				fname, content, err := fileContent(ed.pkg.Fset, ed.file, prev)
+				if err != nil {
+					continue
+				}
+				fset := ed.pkg.Fset
+				off := func(p token.Pos) int { return fset.Position(p).Offset }
+				so, eo := off(ed.start), off(ed.end)
+				if so < 0 || eo > len(content) || so >= eo || overlaps(fname, so, eo) {
+					continue
+				}
+				text := ed.text(content, off)
+				if os.Getenv("VERIF_DEBUG_NORMALIZE") != "" {
+					fmt.Fprintf(os.Stderr, "%s %s:%d -> %d bytes\n", ed.what, fname, fset.Position(ed.start).Line, len(text))
+				}
+				if text == nil {
+					continue
+				}
+				perFile[fname] = append(perFile[fname], span{so, eo, text})
+			}
 			for fname, spans := range perFile {
 				content := prev[fname]
 				if content == nil {
@@ -311,7 +343,7 @@ func deextract(repo string, cfg BuildConfig, ref symTable, overlay map[string][]
 				}
 				ov[fname] = out
 				touched[fname] = true
-				progress = true
+				progress, changedAny = true, true
 				lastRound = append(lastRound, "flatten")
 			}
 		}
@@ -334,7 +366,8 @@ func deextract(repo string, cfg BuildConfig, ref symTable, overlay map[string][]
 			}
 			if len(calls) == 0 {
 				if !inlinedOnce[name] {
-					gaveUp[name] = true // never called statically (an interface method, dead code): not an extraction
+					// not called statically (an interface method, dead code): not an extraction — unless a later
+					// round turns a dynamic call into a static one, so it is looked at again then
 					continue
 				}
 				lastRound = append(lastRound, name)
